@@ -364,7 +364,8 @@ lzma_lzma2_encoder_init(lzma_next_coder *next, const lzma_allocator *allocator,
 extern uint64_t
 lzma_lzma2_encoder_memusage(const void *options)
 {
-	const uint64_t lzma_mem = lzma_lzma_encoder_memusage(options);
+	const uint64_t lzma_mem = lzma_lzma_encoder_memusage_history(
+			options, LZMA2_CHUNK_MAX);
 	if (lzma_mem == UINT64_MAX)
 		return UINT64_MAX;
 
